@@ -38,7 +38,7 @@ ASSUMPTIONS = [
     "user class_check predicates are total and side-effect free",
 ]
 REPORT_COUNTERS = ["pairs_subclasscheck", "pairs_dispatch", "law_transitive", "law_issubclass",
-                   "law_covariance", "deferred_before_import", "deferred_after_import"]
+                   "law_covariance", "deferred_before_import", "deferred_after_import", "late_registration_checked"]
 
 CLOSED_HEADS = {"U", "I", "S", "H"}  # meanings closed under subclassing (with class atoms)
 
@@ -204,6 +204,26 @@ def check_case(spec, res):
                 res.violation("issubclass", [an in env.BUILTINS, bn in env.BUILTINS], spec,
                               observed={"a": an, "b": bn, "subclasscheck": got}, acceptable=issubclass(a, b))
 
+    # late ABC registration: the subtype test and a *freshly built* dispatch follow issubclass as it is now
+    Shape = env.cls("Shape")
+    for cn, C in [(n, c) for n, c in corpus if n in [x["name"] for x in spec["hier"]] and not issubclass(c, Shape)][:2]:
+        before = subclasscheck(C, Shape)
+        Shape.register(C)
+        res.ev()
+        res.count("late_registration_checked")
+        got = subclasscheck(C, Shape)
+        o = Ovld()
+        mt, f1 = make_method({"mid": 1, "pos": [{"n": "x", "t": "Shape"}]}, env, vf, ["return 1"], tag="c13")
+        ma, f2 = make_method({"mid": 0, "pos": [{"n": "x", "t": "object"}]}, env, vf, ["return 0"], tag="c13")
+        o.register(mt)
+        o.register(ma, priority=-1)
+        files += [f1, f2]
+        out = outcome(lambda: o(C()), vf)
+        if got is not True or out[:2] != ("ran", (1,)):
+            res.violation("late-abc-registration", [before, got, out[0]], spec,
+                          observed={"class": cn, "subclasscheck_before": before, "subclasscheck_after": got,
+                                    "fresh_dispatch": [str(x) for x in out[:2]]},
+                          acceptable="subclasscheck True and the method on the ABC runs")
     # l4 covariance
     import collections.abc as cabc
     for shape, an, bn in spec["generics"]:
